@@ -78,5 +78,10 @@ Proof. vm_compute. reflexivity. Qed.
 Lemma ob_run_serves_every_listener_on_one_proxy : run_serves_every_listener_on_one_proxy = true.
 Proof. vm_compute. reflexivity. Qed.
 
+(* shutdownContext applies the timeout only when it is positive: a zero shutdown timeout means "no
+   limit" (the drain is waited for), not "expire at once" *)
+Lemma ob_shutdown_context : shutdown_timeout_guarded = true /\ shutdown_signals_guarded = true.
+Proof. vm_compute. split; reflexivity. Qed.
+
 Lemma ob_default_shutdown_timeout : (0 < default_shutdown_timeout_ms)%Z.
 Proof. vm_compute. reflexivity. Qed.
